@@ -525,6 +525,52 @@ func zzC04ReportRspZero(maxL int) {
 }
 
 func ZZ_C04_ReportRspZero() { zzC04ReportRspZero(zzMaxL()) }
+
+// A control-plane node may come back from another transport address (restarted on another host or
+// port) and set the association up again under the same Node ID. Sessions it establishes afterwards
+// belong to the node at its CURRENT address: a SEID-0 report response from there releases the session
+// it names by control-plane SEID, one from the earlier address (where somebody else may live now)
+// resolves to nothing and leaves everything as it is.
+func zzC04ReassocMoved() {
+	dp := &zzDP{}
+	s := zzNewServer(dp)
+	dp.ln = &s.lnode
+	first := nondetChoice("first-address", 3)
+	second := nondetChoice("second-address", 3)
+	zzDeliver(s, zzAssocReq(1, zzNodeA), zzAddr(first), 1)
+	if nondetBool("session-before") {
+		zzDeliver(s, zzEstReq(2, ie.NewNodeID(zzNodeA, "", ""), ie.NewFSEID(0x60, []byte{127, 0, 0, 1}, nil),
+			ie.NewCreateFAR(ie.NewFARID(1), ie.NewApplyAction(2))), zzAddr(first), 2)
+	}
+	zzDeliver(s, zzAssocReq(3, zzNodeA), zzAddr(second), 3)
+	r := nondetU64("cpseid")
+	zzDeliver(s, zzEstReq(4, ie.NewNodeID(zzNodeA, "", ""), ie.NewFSEID(r, []byte{127, 0, 0, 1}, nil),
+		ie.NewCreateFAR(ie.NewFARID(1), ie.NewApplyAction(2))), zzAddr(second), 4)
+	sess, err := s.lnode.Sess(1)
+	zzAssert("C04.moved.established", err == nil && sess != nil && sess.RemoteID == r)
+	if err != nil || sess == nil {
+		return
+	}
+	from := second
+	if nondetBool("response-from-the-earlier-address") {
+		from = first
+	}
+	req := message.NewSessionReportRequest(0, 0, r, 0, 0, ie.NewReportType(0, 0, 1, 0))
+	rsp := message.NewSessionReportResponse(0, 0, 0, 0, 0, ie.NewCause(ie.CauseSessionContextNotFound))
+	s.handleSessionReportResponse(rsp, zzAddr(from), req)
+	got, err2 := s.lnode.Sess(1)
+	if zzAddr(from).String() == zzAddr(second).String() {
+		zzAssert("C04.moved.released-from-current-address", err2 != nil)
+		zzAssert("C04.moved.rules-withdrawn", dp.rulesOf(1) == 0)
+		zzCover("C04.moved.released")
+	} else {
+		zzAssert("C04.moved.kept-for-earlier-address", err2 == nil && got == sess)
+		zzAssert("C04.moved.rules-kept", dp.rulesOf(1) == 1)
+		zzCover("C04.moved.kept")
+	}
+}
+
+func ZZ_C04_ReassocMoved() { zzC04ReassocMoved() }
 func ZZ_C04_Lookup()        { zzC04Lookup(zzMaxL()) }
 func ZZ_C04_NodeLookup()    { zzC04NodeLookup(zzMaxL()) }
 func ZZ_C04_New()           { zzC04New(zzMaxL()) }
